@@ -67,3 +67,4 @@ openssl req -x509 -new -key ss_client_role.key -subj "/O=verif/CN=client" -not_b
    -addext "1.3.6.1.4.1.50316.802.1=ASN1:FORMAT:UTF8,UTF8String:operator" -out ss_client_role.pem
 rm -f ca1.srl ca2.srl
 ls "$D" | wc -l
+python3 "$(dirname "$0")/two_roles.py"
